@@ -511,7 +511,7 @@ def mon_c01(h, sc, obs):
 def stranded_reason(h, pid, p, opens):
     """causal discriminator for a stuck process"""
     if h.hook_stall(pid):
-        return 'hook-child-finished-last'
+        return 'hook-child-finished-last:' + h.hook_stall(pid)
     pend = [t for t in opens if t['state'] == 'pending']
     if pend:
         # was the deciding sibling already terminal before this branch was initialised?
